@@ -587,6 +587,46 @@ func run(r *mon.Run) {
 			judge(r, x, "random-edit", name, false, 5003)
 		}
 	}
+	// (6) response header maps: :status spellings, pseudo headers, letter case, non-ASCII, repeated names
+	if r.Mine(7) {
+		for _, ver := range []string{"b1", "b2"} {
+			mk := func(status string, h []rbundle.BHeader) []byte {
+				s := &rbundle.BSpec{Version: ver, Exchanges: []rbundle.BExchange{{URL: "https://example.com/x", Status: status, Headers: h, Body: []byte("body")}}}
+				if ver == "b1" {
+					s.Primary = "https://example.com/x"
+				}
+				x, _ := s.Build(nil)
+				return x
+			}
+			for _, st := range []string{"200", "100", "999", "000", "+20", "-07", "+00", "-00", "2 0", " 20", "20 ", "20", "2", "", "2000", "20x", "x20", "0x1", "1e2", "2.0", "\uff12\uff10\uff10", "20\n", "\t20", "2\x000"} {
+				judge(r, mk(st, hdrs("content-type", "text/plain")), "status-spelling", fmt.Sprintf("%s/%q", ver, st), st == "200" || st == "100" || st == "999" || st == "000", 7)
+			}
+			variants := map[string][]rbundle.BHeader{
+				"plain":              hdrs("a", "1", "b", "2"),
+				"upper-case-name":    hdrs("Content-Type", "x"),
+				"non-ascii-name":     hdrs("caf\u00e9", "x"),
+				"non-ascii-value":    hdrs("x", "caf\u00e9"),
+				"other-pseudo":       hdrs(":method", "GET"),
+				"pseudo-url":         hdrs(":url", "https://example.com/"),
+				"empty-name":         hdrs("", "x"),
+				"empty-value":        hdrs("x", ""),
+				"name-with-space":    hdrs("a b", "x"),
+				"name-with-colon":    hdrs("a:b", "x"),
+				"value-with-newline": hdrs("x", "a\r\nb: c"),
+				"value-with-nul":     hdrs("x", "a\x00b"),
+				"long-value":         hdrs("x", strings.Repeat("v", 70000)),
+				"many-headers":       func() []rbundle.BHeader { var h []rbundle.BHeader; for i := 0; i < 300; i++ { h = append(h, rbundle.BHeader{Name: fmt.Sprintf("x-%03d", i), Value: "v"}) }; return h }(),
+			}
+			for name, h := range variants {
+				ok := name == "plain" || name == "empty-value" || name == "long-value" || name == "many-headers" || name == "empty-name" || name == "name-with-space" || name == "name-with-colon" || name == "value-with-newline" || name == "value-with-nul"
+				judge(r, mk("200", h), "header-shape", ver+"/"+name, ok, 3)
+			}
+			// :status given twice (non-canonical map) and missing
+			for name, st := range map[string][]rbundle.BHeader{"status-twice": hdrs(":status", "404"), "status-twice-same": hdrs(":status", "200")} {
+				judge(r, mk("200", st), "header-shape", ver+"/"+name, false, 1)
+			}
+		}
+	}
 	// keep the import used
 	_ = sort.Strings
 }
